@@ -44,6 +44,16 @@ func main() {
 	overlay := map[string]string{}
 	rewritten := 0
 	for _, sn := range os.Args[3:] {
+		if sn == "maporder" {
+			// must be listed first: it type-checks the original sources; the import seams are applied on top of its output
+			n, err := mapOrderSeam(repo, out, overlay)
+			if err != nil {
+				fmt.Println("instr: maporder:", err)
+				os.Exit(3)
+			}
+			fmt.Printf("instr: maporder: %d map range statements rewritten\n", n)
+			continue
+		}
 		r, ok := seams[sn]
 		if !ok {
 			fmt.Println("unknown seam", sn)
